@@ -65,6 +65,13 @@ func (cf *c17Fix) write(root string, l c17Layout) {
 	lay.Blobs[cf.subj["S3"]] = i3.Data
 	lay.Entries = append(lay.Entries, h.Desc{MediaType: mtImg, Digest: digest.Digest(cf.subj["S3"]), Size: int64(len(i3.Data))})
 	lay.Entry(f.Items["U"], tagAnn("unrelated"))
+	// an ordinary tag that merely starts like a fallback tag (metadata tags of some clients look like this): an index of U
+	// under "sha256-<hex of S1>.meta". It is not a fallback tag: it stays, and its children are nobody's referrers.
+	ux := h.Index(mtIdx, []h.Desc{f.Items["U"].Desc()}, nil, "", nil)
+	uxd := lay.AddBlob(ux)
+	uxd.MediaType = mtIdx
+	uxd.Annotations = tagAnn(c17SuffixTag(cf))
+	lay.Entries = append(lay.Entries, uxd)
 	present := map[string]bool{}
 	for _, sk := range h.SortedKeys(l.Fallback) {
 		ents := l.Fallback[sk]
@@ -114,6 +121,10 @@ func (cf *c17Fix) write(root string, l c17Layout) {
 		lay.Entries = append(lay.Entries, rd)
 	}
 	lay.Write(filepath.Join(root, "r"))
+}
+
+func c17SuffixTag(cf *c17Fix) string {
+	return "sha256-" + strings.TrimPrefix(cf.subj["S1"], "sha256:") + ".meta"
 }
 
 // expected referrers per subject: the listed artifacts that exist and actually name the subject, plus accurate converted entries
@@ -293,7 +304,7 @@ func c17Observe(w *h.World, cf *c17Fix, l c17Layout) ([]h.Violation, string) {
 		fmt.Fprintf(&sb, "%s=%d;", sk, len(got))
 	}
 	// every other tag, manifest and blob is kept
-	for _, t := range []string{"t", "unrelated"} {
+	for _, t := range []string{"t", "unrelated", c17SuffixTag(cf)} {
 		if g := w.GetManifest("r", t); g.Status != 200 {
 			vs = append(vs, h.V("other-content-kept", "ordinary-tag-lost", "tag %s after the conversion: %s", t, g))
 		}
